@@ -325,6 +325,27 @@ theorem encodeTime_injective (s1 s2 : Int) (n1 n2 : Nat)
   have b := ofU64_toU64 s2 h2.1 h2.2.1
   rw [this.1] at a; rw [a] at b; exact b
 
+/-- an upgrade plan (`gov.Upgrade`: an int64 height and a version) in amino binary: plans that differ in height - by one, at any
+magnitude up to 2^63 - or in version have different encodings (the JSON sign bytes, which a float64 detour would blur beyond 2^53,
+are judged by the monitors; this is the binary side) -/
+theorem upgradePlan_injective (h1 h2 : Int) (v1 v2 : Bytes)
+    (r1 : -(2 : Int) ^ 63 ≤ h1 ∧ h1 < (2 : Int) ^ 63 ∧ v1.length < 2 ^ 64) (r2 : -(2 : Int) ^ 63 ≤ h2 ∧ h2 < (2 : Int) ^ 63 ∧ v2.length < 2 ^ 64)
+    (e : encodeStruct 1 [.uint (toU64 h1), .bytes v1] = encodeStruct 1 [.uint (toU64 h2), .bytes v2]) : h1 = h2 ∧ v1 = v2 := by
+  have := encodeStruct_injective 1 [.uint (toU64 h1), .bytes v1] [.uint (toU64 h2), .bytes v2] rfl (by simp)
+    (by intro f hf; simp only [List.mem_cons, List.not_mem_nil, or_false] at hf
+        rcases hf with rfl | rfl
+        · exact toU64_lt h1
+        · exact r1.2.2)
+    (by intro f hf; simp only [List.mem_cons, List.not_mem_nil, or_false] at hf
+        rcases hf with rfl | rfl
+        · exact toU64_lt h2
+        · exact r2.2.2) e
+  simp only [List.cons.injEq, Fld.uint.injEq, Fld.bytes.injEq, and_true] at this
+  refine ⟨?_, this.2⟩
+  have a := ofU64_toU64 h1 r1.1 r1.2.1
+  have b := ofU64_toU64 h2 r2.1 r2.2.1
+  rw [this.1] at a; rw [a] at b; exact b
+
 theorem encodeTime_length_le (s : Int) (n : Nat) (hn : n < 2 ^ 64) : (encodeTime s n).length ≤ 22 := by
   have a := uvarint_length_le_ten (toU64 s) (toU64_lt s)
   have b := uvarint_length_le_ten n hn
